@@ -322,7 +322,7 @@ impl C18 {
                 let checks = [
                     ("space.floor", ds.floor == f.name),
                     ("space.height(storey height of its floor)", close32(ds.height, f.height)),
-                    ("space.z(floor z)", close32(ds.z, f.z)),
+                    ("space.z(floor z + own level)", close32(ds.z, f.z + s.z)),
                     ("space.x", close32(ds.x, s.x)),
                     ("space.y", close32(ds.y, s.y)),
                     ("space.azimuth", close32(ds.angle_with_building_north, s.azimuth)),
